@@ -11,7 +11,7 @@ CHECKS = {
  'C01': dict(
    text='Proof: theorems C01_store_float_arrays / C01_store_int_arrays show that the code-shaped model of Fxp.set_val (float scaling, NumPy rounding, astype, '
         'utils.clip, bit-mask utils.wrap, inaccuracy comparison) equals Spec.quantize and the Spec flag conditions for every core-domain format, all 10 mode pairs, '
-        'arrays of any length; C01_store_floats_saturate_any_magnitude extends it to every finite double under saturate with n_frac>=0 (scaled value overflowing to infinity, Python-object path when an element exceeds 2^64, arrays mixing huge and fractional elements); C01_read_back shows get_val is exactly code*2^-n_frac. The tie to /repo is a correspondence run: every carrier x route, exhaustive '
+        'arrays of any length; C01_store_floats_saturate_any_magnitude extends it to every finite double under saturate with n_frac>=0 (scaled value overflowing to infinity, Python-object path when an element exceeds 2^64, arrays mixing huge and fractional elements); C01_store_complex_arrays: each component of a complex input is quantized on its own and the flags are those of either part; C01_read_back shows get_val is exactly code*2^-n_frac. The tie to /repo is a correspondence run: every carrier x route, exhaustive '
         'quarter-LSB sweeps of small formats, boundary-biased random formats up to 52 bits, far-out-of-range values under both overflow modes, huge floats alone and mixed with fractional ones, compared with the extracted Spec and model.',
    design='7/C01', technique='Coq proof of model = quantizer + differential correspondence (extracted model vs implementation)'),
 
